@@ -183,6 +183,20 @@ pub fn tamperings(r: &mut Rng, h: &Honest, other: Option<&Honest>, positions: us
                 }
             }
             out.push(mk("payload-reencoded", h, with_jwt(h, format!("{}.{}.{}", parts[0], b64_json(&pl), parts[2])), honest_resolver.clone(), kb));
+            // registered claims replaced by numbers at the edges of every machine type (whatever reads them before the signature is
+            // checked must not trip), by other JSON types, by absent
+            if let Some(base) = h.pres.payload() {
+                let extremes = [json!(9223372036854775807u64), json!(9223372036854775808u64), json!(18446744073709551615u64), json!(-9223372036854775808i64), json!(1e19), json!(1.7e308), json!(-1e300),
+                                json!(0), json!(1), json!(4), json!(0.4), json!(4294967295u64), json!(4294967296u64), json!(253402300800u64), json!("2030-01-01"), json!(null), json!([]), json!({})];
+                for claim in ["exp", "nbf", "iat"] {
+                    let picks: Vec<&Value> = if all_positions { extremes.iter().collect() } else { (0..3).map(|_| r.pick(&extremes)).collect() };
+                    for v in picks {
+                        let mut p2 = base.clone();
+                        p2[claim] = v.clone();
+                        out.push(mk(&format!("payload-reencoded-extreme-{}: {}", claim, v), h, with_jwt(h, format!("{}.{}.{}", parts[0], b64_json(&p2), parts[2])), honest_resolver.clone(), kb && r.chance(1, 2)));
+                    }
+                }
+            }
             // the same bytes re-serialized (whitespace) are not the signed bytes either
             let spaced = serde_json::to_string_pretty(&h.pres.payload().unwrap()).unwrap();
             out.push(mk("payload-respaced", h, with_jwt(h, format!("{}.{}.{}", parts[0], b64(spaced.as_bytes()), parts[2])), honest_resolver.clone(), kb));
